@@ -5,7 +5,7 @@ import ast
 from ..program import AnalysisError, walk_local, dotted
 from ..analysis import Spec, src, class_const, const_value
 from ..deps import Deps
-from ..rules import (guard_paths, inside, before, GWF, EXC, mpt, need_func, stores_to, raise_class,
+from ..rules import (substitute_locals, guard_paths, inside, before, GWF, EXC, mpt, need_func, stores_to, raise_class,
                      chained_assign_value, is_const, explicit_exits)
 from . import common
 from .c04 import signature, diff_sig
@@ -112,14 +112,14 @@ def bypass_exits(prog, an, rep):
                   detail=str(sorted(lv)))
     conf_tests = [t for t in an.test_nodes(
         f, lambda e: 'jira_keys' in src(e) or 'jira_account_url' in src(e)
-        or 'jira_email' in src(e))]
+        or 'jira_email' in src(e), expand='all')]
     conf = []
     for t in conf_tests:
         conf += c.branch(t, False)
         lv = d.leaves(t.ast, with_control=False)
         rep.check(lv == {'settings.jira_keys', 'settings.jira_email',
                          'settings.jira_account_url'} and
-                  src(t.ast).startswith('all('), 'C11.DEP.not-configured',
+                  src(t.matched).startswith('all('), 'C11.DEP.not-configured',
                   f.qname + ': "Jira not configured" = any of the three '
                   'settings empty', f.where(t),
                   '"not configured" test is %s' % src(t.ast),
@@ -387,24 +387,28 @@ def filters(prog, an, rep):
     from ..regexlang import Lang
     R = 'C11.LNG.version-filter'
     f = need_func(an, J + '.check_fix_versions')
-    pats = {}
-    for n in walk_local(f.node, include_root=False):
-        if isinstance(n, ast.Assign) and isinstance(n.value, ast.Call) and \
-                dotted(n.value.func) == 're.compile' and n.value.args:
-            pats[n.targets[0].id] = (const_value(n.value.args[0]), n)
-    rep.floor('C11 compiled filters in check_fix_versions', len(pats), 2)
-    # which filter guards what: the one applied to every issue version
-    # (comprehension filter) and the one applied to the single target
+    # <compiled pattern>.match(x) uses, the pattern being a local bound to
+    # re.compile(...) or the re.compile(...) call itself
     checked = hot = None
-    for name, (pat, node) in pats.items():
-        uses = [x for x in walk_local(f.node, include_root=False)
-                if isinstance(x, ast.Call) and
-                dotted(x.func) == name + '.match']
-        if any(src(u.args[0]) in ('v',) or isinstance(u.args[0], ast.Name)
-               and _in_comprehension(f, u) for u in uses):
-            checked = (name, pat, node)
+    n_pat = 0
+    for u in walk_local(f.node, include_root=False):
+        if not (isinstance(u, ast.Call) and
+                isinstance(u.func, ast.Attribute) and
+                u.func.attr == 'match' and u.args):
+            continue
+        comp = substitute_locals(f, u.func.value)
+        if not (isinstance(comp, ast.Call) and
+                dotted(comp.func) == 're.compile' and comp.args):
+            continue
+        n_pat += 1
+        name = src(u.func.value)[:30]
+        pat = const_value(comp.args[0])
+        if isinstance(u.args[0], ast.Name) and _in_comprehension(f, u):
+            checked = (name, pat, u)
         else:
-            hot = (name, pat, node)
+            hot = (name, pat, u)
+    rep.floor('C11 compiled filters in check_fix_versions', n_pat, 2)
+    pats = (checked, hot)
     if checked is None or hot is None:
         raise AnalysisError('anchor-missing version filters (%s)' %
                             sorted(pats))
